@@ -306,6 +306,25 @@ func c02Run(rc *RunCtx, params any) {
 			lat = pair.SHs.At
 		}
 		s.Probe(fmt.Sprintf("latency<=%ds", bucket(int(lat/time.Second))))
+		// how long after the last fault, in units of the retransmission interval in force then
+		if n.LastFaultAt > 0 && lat > n.LastFaultAt {
+			I := time.Second
+			if p.FlightMs > 0 {
+				I = time.Duration(p.FlightMs) * time.Millisecond
+			}
+			cur := I
+			for _, ep := range []string{"c", "s"} {
+				c := I
+				for _, b := range burstsOf(n, ep, nil) {
+					if b.cause == "timer" && b.at <= n.LastFaultAt && !p.NoBack {
+						c = min(2*c, 60*time.Second)
+					}
+				}
+				cur = max(cur, c)
+			}
+			ratio := float64(lat-n.LastFaultAt) / float64(cur)
+			s.Probe(fmt.Sprintf("recovery<=%dx-interval-in-force-at-last-fault", bucket(int(ratio+0.999))))
+		}
 		if v.Resume {
 			s.Probe("resumed-variant-completed")
 		}
